@@ -137,9 +137,16 @@ def get_type_graph(t: type) -> graphlib.TopologicalSorter[TypeNode]:
             # We detected a cyclic type,
             #   wrap in a ForwardRef and don't add it to the stack
             #   This will terminate this edge to prevent infinite cycles.
-            if is_visited and can_be_cyclic and not inspect.isclass(unwrapped):
-                # Subscripted generics and unions can't be named by a reference,
-                #   so we defer the type itself, it will be resolved lazily.
+            is_named = (
+                inspect.isclass(child)
+                or hasattr(child, "__supertype__")
+                or inspection.istypealiastype(child)
+            )
+            if is_visited and can_be_cyclic and not (
+                is_named and inspect.isclass(unwrapped)
+            ):
+                # Subscripted generics, unions and qualified types (`Final[...]`) can't be
+                #   named by a reference, so we defer the type itself, it will be resolved lazily.
                 node = TypeNode(type=child, unwrapped=unwrapped, var=var, cyclic=True)
             elif is_visited and can_be_cyclic:
                 # Reference the class by its full qualified name within its own module,
